@@ -139,7 +139,36 @@ fn cell(idx: u64, rec: &mut Rec) {
         (Ok(Some(f)), None) => rec.fail("C15/followed-despite-table", format!("{} {}: followed with {}, table says do not follow", method, status, f.method())),
         (Ok(Some(f)), Some(w)) => {
             if f.method().as_str() != w {
-                rec.fail("C15/wrong-method", format!("{} {}: new flow uses {}, table says {}", method, status, f.method(), w));
+                return rec.fail("C15/wrong-method", format!("{} {}: new flow uses {}, table says {}", method, status, f.method(), w));
+            }
+            // the table applies at every hop: send the new request and redirect it once more
+            if variant == 0 && body_kind == 0 {
+                use super::heads::*;
+                let status2 = [301u16, 302, 303, 307, 308, 399][(idx as usize / 7) % 6];
+                let original = crate::wire::split_uri(&cfg.uri);
+                let eff1 = Eff { method: w, uri: crate::wire::split_uri("http://a.test/next/place"), inherited: vec![], depth: 1, auth_kept: false };
+                let hop2 = Hop { status: status2, locations: vec![b"/third".to_vec()], with_body: false };
+                rec.call();
+                let want2 = redirect_method(w, status2);
+                match follow_one(f, &cfg, &eff1, &original, &hop2, policy) {
+                    Ok(Followed::Next(f3, _)) => {
+                        rec.cov("second-hop/followed");
+                        if Some(f3.method().as_str()) != want2 {
+                            rec.fail(
+                                "C15/wrong-method",
+                                format!("{} -{}-> {} -{}-> {}: the table says {:?} at the second hop", method, status, w, status2, f3.method(), want2),
+                            );
+                        }
+                    }
+                    Ok(Followed::NotFollowed) => {
+                        rec.cov("second-hop/not-followed");
+                        if let Some(w2) = want2 {
+                            rec.fail("C15/not-followed", format!("{} -{}-> {} -{}-> not followed, table says {}", method, status, w, status2, w2));
+                        }
+                    }
+                    Ok(Followed::Error(e)) => rec.fail("C15/error", format!("second hop: {}", e)),
+                    Err(e) => rec.fail("C15/exchange-failed", format!("second hop: {}", e)),
+                }
             }
         }
     }
@@ -173,6 +202,7 @@ impl Property for P {
             ("no-location/redirect-state-entered".into(), 500),
             ("expect-refused-by-3xx".into(), 500),
             ("after-unsolicited-100".into(), 500),
+            ("second-hop/followed".into(), 500),
         ]
     }
 }
